@@ -503,3 +503,258 @@ def probes_driven_every_iteration(ctx, P, pre):
     ctx.ob(pre + ".probes-driven-every-iteration", run.name, ok, run.loc(cs[0][0]) if cs else run.loc(),
            "every iteration of the run loop calls probing_handler" if ok else
            "an iteration of the run loop can skip probing_handler: probes that are due wait for the next wake-up")
+
+
+# ------------------------------------------------------------------------------------------------
+# Rules added after seeded round 5 (feature interactions: what one command stores and another looks up)
+def resolve_purge_clears_pending(ctx, P, pre):
+    """`pending_resolves` and the queued Command::Resolve reruns are two halves of one piece of bookkeeping: the rerun is the only
+    thing that ever takes an unresolved instance out of the set, and add_pending_resolve starts no chain while the entry is
+    there.  So a function that can purge Resolve reruns from the queue also edits pending_resolves — otherwise the instance
+    is never asked about again (browse, stop, browse)."""
+    from .f9 import purge_info
+    n = 0
+    for f in P.lib_fns():
+        if f.in_tests() or f.is_closure:
+            continue
+        try:
+            info = purge_info(P, f)
+        except Exception:
+            continue
+        hit = [b for (b, vs) in info["removes"] if "Resolve" in vs]
+        if not hit:
+            continue
+        n += 1
+        edits = [b for b, t in f.calls() if name_matches(cname(t), "HashSet::remove", "HashSet::clear", "HashSet::retain", "HashSet::take", "HashSet::drain")
+                 and recv_mentions(P, f, b, t, "pending_resolves", "Zeroconf")]
+        edits += [b for c in P.closures_of.get(f.name, []) for b, t in P.fns[c].calls() if name_matches(cname(t), "HashSet::remove") and
+                  fn_mentions_field(P, P.fns[c], "Zeroconf", "pending_resolves")]
+        ctx.ob(pre + ".resolve-purge-clears-pending", f.name, bool(edits), f.loc(hit[0]),
+               "the function that purges Resolve reruns also takes the instances out of pending_resolves" if edits else
+               "Resolve reruns are purged here but their instances stay in pending_resolves: add_pending_resolve will never start another chain "
+               "for them, so after browse / stop / browse the instance stays unresolved")
+    ctx.ob(pre + ".resolve-purge-clears-pending", "(functions purging Resolve reruns: %d)" % n, True, "", "checked %d function(s)" % n)
+
+
+def resend_is_keyed_like_my_services(ctx, P, pre):
+    """Command::RegisterResend(name, if_index) is looked up in my_services, whose keys are the names as registered: the name put
+    into the command is ServiceInfo::get_fullname(), never the conflict-resolved name (resolve_name), or the second
+    announcement of a renamed service is silently skipped"""
+    n = 0
+    for f, b, i, s in all_aggregates(P, "service_daemon::Command", "RegisterResend"):
+        if f.in_tests():
+            continue
+        tr = tracer(P, f)
+        e = tr.rvalue(s["r"], (b, i))
+        name_e = e[4][0] if len(e) > 4 and e[4] else e
+        bad = any(x[0] == "call" and name_matches(strip_generics(x[1]), "DnsRegistry::resolve_name") for x in walk(name_e)) or \
+            any(x[0] == "field" and x[2] == "name_changes" for x in walk(name_e))
+        n += 1
+        ctx.ob(pre + ".resend-keyed-like-my_services", "%s|RegisterResend#%d" % (f.name, n), not bad, f.loc(b, i),
+               "the name in RegisterResend is the registered name" if not bad else
+               "RegisterResend carries the conflict-resolved name, but exec_command_register_resend looks the service up under the registered "
+               "name: a renamed service is announced once only")
+    ctx.floor(pre + ".resend-keyed-like-my_services", n, 2, "constructions of Command::RegisterResend")
+
+
+def shared_host_rename_outlives_one_service(ctx, P, pre):
+    """the rename of a host name (name_changes[host]) belongs to every service registered on that host: it is removed only
+    behind a scan of my_services that shows no other service uses the host (today: never removed)"""
+    n = 0
+    for f in P.lib_fns():
+        if f.in_tests() or f.is_closure:
+            continue
+        tr = None
+        for b, t in f.calls():
+            if not (name_matches(cname(t), "HashMap::remove", "HashMap::remove_entry") and recv_mentions(P, f, b, t, "name_changes", "DnsRegistry")):
+                continue
+            tr = tr or tracer(P, f)
+            k = tr.operand(t["args"][1], endpos(f, b))
+            if not any(x[0] == "call" and name_matches(strip_generics(x[1]), "ServiceInfo::get_hostname") for x in walk(k)):
+                continue
+            n += 1
+            scan = guard_edges(P, f, lambda atom, outcome, bb: expr_or_closure_mentions_field(P, atom, "my_services", "Zeroconf") and
+                               any(x[0] == "call" and method(strip_generics(x[1])) in ("values", "iter", "any", "all", "find", "filter", "count") for x in walk(atom)) and
+                               not any(x[0] == "call" and method(strip_generics(x[1])) in ("remove", "remove_entry") for x in walk(atom)))
+            ok = bool(scan) and must_pass_edges(f, b, scan)
+            ctx.ob(pre + ".shared-host-rename-outlives-one-service", "%s|name_changes.remove(hostname)#%d" % (f.name, n), ok, f.loc(b),
+                   "the host's rename is removed only after a look at the other services" if ok else
+                   "the rename of the host name is removed with one service although other services may still be announced on that host: their "
+                   "SRV target and addresses fall back to the name the host lost")
+    ctx.ob(pre + ".shared-host-rename-outlives-one-service", "(removals keyed by a host name: %d)" % n, True, "", "checked %d removal(s)" % n)
+
+
+def cached_names_updated_whatever_is_for_us(ctx, P, pre):
+    """`is_for_us == false` keeps add_or_update from creating an entry for a name nobody asked about; for a name that IS cached
+    (shared host of a browsed and an un-browsed service, records kept from an earlier accept_unsolicited) the goodbye, the
+    cache-flush and the TTL refresh still apply.  So the not-for-us return is taken only behind a look at the existing
+    records of that name."""
+    f = P.one("DnsCache::add_or_update")
+    idx = param_index(f, "is_for_us", "bool")
+    ctx.require(idx is not None, pre + ".anchor", f.name + "|bool parameter", f.loc(), "is_for_us parameter found")
+    if idx is None:
+        return
+    e_false = guard_edges(P, f, lambda atom, outcome, bb: atom == ("param", idx) and outcome is False)
+    MAPS = ("ptr", "srv", "txt", "addr", "nsec")
+
+    def looks_at_existing(atom, outcome, bb):
+        return any(x[0] == "call" and method(strip_generics(x[1])) in ("get", "contains_key", "get_mut") and
+                   any(expr_mentions_field(a, m, "DnsCache") for a in x[2] for m in MAPS) for x in walk(atom))
+    e_exist = guard_edges(P, f, looks_at_existing)
+    creators = [b for b, t in f.calls() if method(cname(t)) in ("entry", "insert") and any(recv_mentions(P, f, b, t, m, "DnsCache") for m in MAPS)]
+    bad = []
+    reach = f.reachable(0, removed_blocks=creators, removed_edges=e_exist)
+    for (b, t) in sorted(e_false):
+        gives_up = not any(c in f.reachable(t) for c in creators)        # from here the record is not stored or refreshed any more
+        if gives_up and b in reach:
+            bad.append(f.loc(b))
+    ctx.ob(pre + ".cached-names-updated-whatever-is-for-us", f.name, bool(e_false) and not bad, f.loc(),
+           "the not-for-us return of add_or_update sits behind a look at the records already cached for the name" if (e_false and not bad) else
+           "add_or_update returns for `is_for_us == false` without looking at what is cached for the name (%s): a goodbye or cache-flush for a "
+           "cached name that arrives in a packet led by foreign records is ignored" % bad[:2])
+
+
+def verify_disputes_unique_records_only(ctx, P, pre):
+    """verify() shortens the life of the instance's SRV and its host's addresses and asks for them again.  It does not put
+    the PTR in dispute: a PTR is a shared record, the query that follows lists it as a known answer while it is in the first
+    half of its TTL, the responder then rightly stays silent about it, and the shortened PTR would run out although the
+    responder answered."""
+    f = P.one("DnsCache::service_verify_queries")
+    fs = [f] + [P.fns[c] for c in P.closures_of.get(f.name, [])]
+    n = 0
+    bad = []
+    for g in fs:
+        tr = tracer(P, g)
+        for b, t in g.calls():
+            if name_matches(cname(t), "DnsRecord::set_expire_sooner", "DnsRecord::set_expire", "DnsRecordExt::set_expire_sooner", "DnsRecordExt::set_expire"):
+                n += 1
+                e = tr.operand(t["args"][0], endpos(g, b))
+                if expr_mentions_field(e, "ptr", "DnsCache"):
+                    bad.append(g.loc(b))
+    ctx.ob(pre + ".verify-disputes-unique-records-only", f.name, n >= 1 and not bad, f.loc(),
+           "verify shortens %d record site(s), none of them a PTR" % n if (n and not bad) else
+           "verify shortens the expiry of PTR records (%s): known-answer suppression keeps a live responder from re-confirming a young PTR, "
+           "and ServiceRemoved is reported for an instance that answered" % bad[:1])
+
+
+def goodbye_repeat_never_cancelled(ctx, P, pre):
+    """`repeats the same packet once about 120 ms later`: Command::UnregisterResend carries no service name, so nobody can
+    cancel 'the repeat of service X' — any purge that can drop UnregisterResend reruns drops those of other services too.
+    Only a purge of everything (shutdown) may."""
+    from .f9 import purge_info
+    bad = []
+    n = 0
+    for f in P.lib_fns():
+        if f.in_tests() or f.is_closure:
+            continue
+        try:
+            info = purge_info(P, f)
+        except Exception:
+            continue
+        for (b, vs) in info["removes"]:
+            n += 1
+            if "UnregisterResend" in vs:
+                bad.append("%s @%s" % (f.name.split("::")[-1], f.loc(b)))
+    ctx.ob(pre + ".goodbye-repeat-never-cancelled", "Zeroconf.retransmissions", not bad, "",
+           "%d purge site(s) of the rerun queue, none names UnregisterResend" % n if not bad else
+           "a purge of the rerun queue drops UnregisterResend reruns (%s): they carry no service name, so the goodbye repeat of every other "
+           "service unregistered in the last 120 ms is lost too" % bad[:2])
+
+
+def removals_before_additions_on_ip_change(ctx, P, pre):
+    """check_ip_changes first removes what vanished (del_interface_addr / del_ip) and then adds what appeared
+    (apply_intf_selections): an address that moved from one interface to another is then removed from the services and
+    added again; the other order adds it (a no-op, it is still there) and then removes it for good."""
+    f = P.one("Zeroconf::check_ip_changes")
+    adds = calls_to(f, "Zeroconf::apply_intf_selections")
+    dels = calls_to(f, "Zeroconf::del_ip", "Zeroconf::del_interface_addr")
+    ctx.require(len(adds) >= 1 and len(dels) >= 1, pre + ".anchor", f.name + "|add + delete steps", f.loc(), "%d/%d" % (len(adds), len(dels)))
+    if not adds or not dels:
+        return
+    bad = [f.loc(a) for a, _t in adds if any(d in f.reachable(a) for d, _t2 in dels)]
+    ctx.ob(pre + ".removals-before-additions", f.name, not bad, f.loc(adds[0][0]),
+           "no removal of a vanished address can follow apply_intf_selections" if not bad else
+           "apply_intf_selections (%s) runs before the removal of vanished addresses: an address that moved to another interface is dropped from "
+           "the addr_auto services and never re-added" % bad[:1])
+
+
+def decoded_names_are_verbatim(ctx, P, pre):
+    """`never produces a name longer than the datagram could encode`: the decoder hands names on as they were read; a
+    length-changing transformation (Unicode to_lowercase / to_uppercase / replace) inside the decoder can grow a legal
+    63-byte label beyond what the encoder (and the peer) accepts"""
+    root = P.one("DnsIncoming::new")
+    scope = P.reachable_from([root.name])
+    bad = []
+    n = 0
+    for name in sorted(scope):
+        g = P.fns.get(name)
+        if g is None or g.in_tests() or is_derived_impl(g) or " as std::fmt::" in g.name:
+            continue
+        n += 1
+        for b, t in g.calls():
+            if method(strip_generics(cname(t))) in ("to_lowercase", "to_uppercase", "replace", "replacen") and "str" in cname(t):
+                bad.append("%s @%s" % (g.name.split("::")[-1], g.loc(b)))
+    ctx.ob(pre + ".decoded-names-are-verbatim", root.name, n >= 10 and not bad, root.loc(),
+           "%d decoder functions, none applies a length-changing string transformation" % n if (n >= 10 and not bad) else
+           "the decoder transforms what it read with a length-changing string function (%s): U+0130 lower-cases from 2 to 3 bytes, so a legal "
+           "63-byte label becomes 64 bytes" % bad[:2])
+
+
+def exact_host_compare_gets_exact_names(ctx, P, pre):
+    """DnsCache keys its address map by the lower-cased host name but compares SRV targets as received.  A function that
+    compares its &str parameter with DnsSrv::host() by plain `==` must therefore be given a name as received, never an item
+    of a collection that was filled with lower-cased names (a host with a capital letter would never match)."""
+    exact = {}
+    for g in P.lib_fns():
+        if g.in_tests():
+            continue
+        owner = g
+        # the comparison may sit in a closure of the function
+        for h in [g] + [P.fns[c] for c in P.closures_of.get(g.name, [])]:
+            for (_e, atom, _o) in guard_atoms(P, h):
+                if atom[0] == "call" and method(strip_generics(atom[1])) in ("eq", "ne") and len(atom[2]) == 2:
+                    sides = atom[2]
+                    for i in (0, 1):
+                        a, b_ = sides[i], sides[1 - i]
+                        if any(x[0] == "call" and name_matches(strip_generics(x[1]), "DnsSrv::host") for x in walk(a)) and not is_lowercased(a):
+                            # the other side: a parameter of g (directly, or captured by the closure)
+                            ps = [x for x in walk(b_) if x[0] == "param"]
+                            if ps and not is_lowercased(b_) and not any(x[0] == "call" and method(strip_generics(x[1])) in ("to_lowercase", "to_ascii_lowercase") for x in walk(b_)):
+                                exact.setdefault(owner.name, owner)
+    n = 0
+    bad = []
+    for name, g in sorted(exact.items()):
+        if g.is_closure:
+            continue
+        for f in P.lib_fns():
+            if f.in_tests():
+                continue
+            tr = None
+            for b, t in f.calls():
+                if strip_generics(cname(t)) != name and not name_matches(cname(t), name):
+                    continue
+                tr = tr or tracer(P, f)
+                n += 1
+                for ai, a in enumerate(t["args"][1:], start=1):
+                    e = tr.operand(a, endpos(f, b))
+                    if _items_of_lowercased_collection(P, f, tr, e) or is_lowercased(e):
+                        bad.append("%s @%s" % (f.name.split("::")[-1], f.loc(b)))
+    ctx.ob(pre + ".exact-host-compare-gets-exact-names", "DnsCache", not bad, "",
+           "%d function(s) compare DnsSrv::host() exactly with a parameter; %d call site(s), none passes a lower-cased name" % (len(exact), n) if not bad else
+           "a lower-cased host name is handed to a function that compares it exactly with DnsSrv::host() (%s): for a host name with a capital "
+           "letter the comparison never matches (shared host's addresses dropped while another browsed type still needs them)" % bad[:2])
+
+
+def _items_of_lowercased_collection(P, f, tr, e):
+    """e is (derived from) an item of a local collection into which some lower-cased value was inserted"""
+    sites = {x[3] for x in walk(e) if x[0] == "call" and method(strip_generics(x[1])) in ("new", "with_capacity", "default") and ("HashSet" in x[1] or "Vec" in x[1] or "BTreeSet" in x[1])}
+    if not sites:
+        return False
+    for b, t in f.calls():
+        if method(cname(t)) in ("insert", "push") and len(t["args"]) >= 2:
+            r = tr.operand(t["args"][0], endpos(f, b))
+            if any(x[0] == "call" and x[3] in sites for x in walk(r)):
+                v = tr.operand(t["args"][1], endpos(f, b))
+                if is_lowercased(v) or any(x[0] == "call" and method(strip_generics(x[1])) == "to_lowercase" for x in walk(v)):
+                    return True
+    return False
